@@ -41,6 +41,10 @@ CHECKS = {
          "Exhaustive over a name pool with normalisation near-misses, 1..2 (3) operations in any order, fragment placement and ten text decorations (CRLF, lone CR, tabs, commas, comments with quotes / non-ASCII, string escapes, block strings, no trailing newline, leading blank lines, astral characters). Each emitted module must carry the source text byte for byte, the unmodified name of one selected operation, and types derived from that same operation; derive mode must fail naming the operations when nothing matches.",
          "Trusted: TLC, the text renderer in tools/c05.py, syn::LitStr::value. heck's UpperCamelCase on the pool is a table in the spec. Name collisions of unselected multi-operation documents are outside the statement (recorded under C02).",
          "DESIGN.md §5 C05", "model_checking"),
+ "C07": ("TLA+ description of schema variants and renderings (Frontends.tla) enumerated by TLC with the relation each pair must satisfy; every chosen pair rendered to files and the real generator's outcomes compared literally (and modulo item order across type orders)",
+         "TLC enumerates variants of the universe schema (probe field type expression x base kind, deprecations with / without reason on objects and interfaces, @oneOf, implementors, union members, enum values, which root types exist) and rendering pairs {SDL, bare JSON, data-wrapped JSON} x type order x built-in scalars / introspection types listed x explicit / default / default-named-explicit roots x extensions folded (incl. `extend type ... implements`) x sparse JSON. For a kitchen-sink operation with variables of input types and sampled ProgGen operations, under three option sets, both renderings must give the identical token stream or the identical error.",
+         "Trusted: TLC, tools/render.py (the two renderers are the projection: a rendering bug would show up as a disagreement, i.e. a false alarm, not a miss). The relation is between two outputs of the real code.",
+         "DESIGN.md §5 C07", "model_checking"),
 }
 
 
